@@ -266,6 +266,10 @@ def run(model: Model, rep: Report) -> None:
         same = False
     r10.check(same, site(hx), "pdfminer.psparser.HEX_PAIR", "HEX_PAIR matches two hexadecimal digits, or else any single byte (regex syntax trees compared)", why=f"pattern is {getattr(pair, 'pattern', None)!r}")
 
+    # ----------------------------------------------------------------- R11 (shared with C12-R10): keywords and names are recognised by identity
+    from .c12 import intern_monotone_rule
+
+    intern_monotone_rule(model, rep, "C01-R11")
     # ----------------------------------------------------------------- R5
     _assembly(model, rep, fo)
 
